@@ -114,35 +114,42 @@ CHUNKS = ["1", "2", "3", "5", "4096", "rnd", "cyc"]
 
 def run_c34(ctx):
     quick = ctx.quick
-    # 1. the online model: reader + read() against every valid framed stream (unbounded number of units),
-    #    every chunking; intended variant must be exact; the two as-is variants must give counterexamples
+    # 1. the online model: reader + read() as they are now (end-of-stream path "current", i.e. with the repair
+    #    7b855c6) against every valid framed stream (unbounded number of units), every chunking: Exact must
+    #    hold.  Documented counterexamples: the pinned end-of-stream path (AnnexB_pinned / AnnexBVec_pinned) and
+    #    read() as it is when the final chunk comes together with io.EOF (AnnexB_asis_eof, outside C34's assumption).
     mc_cfg = "AnnexB_MC" if quick else "AnnexB_MC_big"
     vec_cfgs = ["AnnexBVec_q"] if quick else ["AnnexBVec_t1", "AnnexBVec_t2", "AnnexBVec_t3"]
     jobs = [lambda: vlib.tlc_model(_sub(ctx, "mc"), "AnnexB", mc_cfg, workers=4 if quick else 8, tool_opts=JVM),
-            lambda: vlib.tlc_expect_violation(_sub(ctx, "asis"), "AnnexB", "AnnexB_asis", workers=1, tool_opts=JVM),
+            lambda: vlib.tlc_expect_violation(_sub(ctx, "pinned"), "AnnexB", "AnnexB_pinned", workers=1, tool_opts=JVM),
             lambda: vlib.tlc_expect_violation(_sub(ctx, "asis-eof"), "AnnexB", "AnnexB_asis_eof", workers=1, tool_opts=JVM),
-            lambda: vlib.tlc_expect_violation(_sub(ctx, "vec-asis"), "AnnexBVec", "AnnexBVec_asis", workers=1, tool_opts=JVM),
+            lambda: vlib.tlc_expect_violation(_sub(ctx, "vec-pinned"), "AnnexBVec", "AnnexBVec_pinned", workers=1, tool_opts=JVM),
             lambda: vlib.go_build(ctx, "annexb_h264"),
             lambda: vlib.go_build(ctx, "annexb_h265")]
     jobs += [(lambda c=c: vlib.tlc_model(_sub(ctx, c), "AnnexBVec", c, workers=1, tool_opts=JVM)) for c in vec_cfgs]
+    if not quick:   # the repaired read() keeps the property even when the final chunk comes with io.EOF
+        jobs.append(lambda: vlib.tlc_model(_sub(ctx, "mc-eof"), "AnnexB", "AnnexB_MC_eof", workers=4, tool_opts=JVM))
     res = parallel(jobs)
-    mc, asis, asis_eof, vec_asis, bin264, bin265 = res[:6]
-    vec_runs = res[6:]
-    for r in [mc] + vec_runs:
+    mc, pinned, asis_eof, vec_pinned, bin264, bin265 = res[:6]
+    vec_runs = res[6:6 + len(vec_cfgs)]
+    extra = [("AnnexB/AnnexB_MC_eof", r) for r in res[6 + len(vec_cfgs):]]
+    for r in [mc] + vec_runs + [r for _, r in extra]:
         ctx.cov["states"] += r.distinct
         ctx.cov["transitions"] += r.generated
-    for name, r in [("AnnexB/" + mc_cfg, mc), ("AnnexB/AnnexB_asis", asis), ("AnnexB/AnnexB_asis_eof", asis_eof),
-                    ("AnnexBVec/AnnexBVec_asis", vec_asis)] + [("AnnexBVec/" + c, r) for c, r in zip(vec_cfgs, vec_runs)]:
+    for name, r in [("AnnexB/" + mc_cfg, mc), ("AnnexB/AnnexB_pinned", pinned), ("AnnexB/AnnexB_asis_eof", asis_eof),
+                    ("AnnexBVec/AnnexBVec_pinned", vec_pinned)] + \
+            [("AnnexBVec/" + c, r) for c, r in zip(vec_cfgs, vec_runs)] + extra:
         ctx.cov["tlc_runs"].append({"spec": name, "rc": r.rc, "generated": r.generated, "distinct": r.distinct,
                                     "depth": r.depth, "wall_s": round(r.wall, 2)})
     ctx.log("online model %s: %d distinct states, depth %d (any number of units, every chunking): Exact holds" %
             (mc_cfg, mc.distinct, mc.depth))
     ctx.cov["online_model_states"] = mc.distinct
-    ctx.cov["asis_model_counterexample"] = {"sei_last_returned": asis.rc == 12, "final_chunk_with_eof_lost": asis_eof.rc == 12,
-                                            "bounded_vector_model": vec_asis.rc == 12}
-    if asis.rc != 12 or vec_asis.rc != 12:
-        ctx.notes.append("model drift: the as-is reader model no longer yields the SEI-last counterexample (rc=%s/%s)" %
-                         (asis.rc, vec_asis.rc))
+    ctx.cov["documented_counterexamples"] = {"pinned_code_sei_last_returned": pinned.rc == 12,
+                                             "pinned_code_bounded_vector_model": vec_pinned.rc == 12,
+                                             "read_as_is_final_chunk_with_eof_lost": asis_eof.rc == 12}
+    if pinned.rc != 12 or vec_pinned.rc != 12:
+        ctx.notes.append("the pinned-code reader model no longer yields the SEI-last counterexample (rc=%s/%s)" %
+                         (pinned.rc, vec_pinned.rc))
 
     # 2. vectors: every stream TLC enumerated, plus stretched copies (long units up to 10 KiB)
     vecs = [v[0] for r in vec_runs for v in r.tag("VERIF_VEC")]
@@ -189,12 +196,13 @@ def run_c34(ctx):
     distinct = {(l["codec"], l["sei"], tuple(n["d"] if n["n"] <= 6 else n["n"] for n in l["nals"])) for l in lines}
     ctx.cov["bytes_fed"] = sum(l["bytes"] for l in lines) * len(CHUNKS)
     ctx.cov["chunk_dependent_observations"] = sum(1 for l in lines if len(l["runs"]) > 1)
-    # model drift: the as-is model's prediction for inclusion off against the real readers
+    # model drift: what the model of the code as it is ("current") predicts, against the real readers
     drift = 0
     for l in lines:
         i = l["t"] % H265_ID_OFFSET
-        if i < len(vecs) and not l["sei"]:
-            if any(len(r["out"]) != len(vecs[i]["asisOff"]) for r in l["runs"]):
+        if i < len(vecs):
+            want = vecs[i]["curOn" if l["sei"] else "curOff"]
+            if any([o["n"] for o in r["out"]] != [len(u) for u in want] for r in l["runs"]):
                 drift += 1
     ctx.cov["model_drift_cases"] = drift
     ctx.cov["samples"] = [{"vector": vecs[0]}, {"vector": vecs[len(vecs) // 2]}] + \
